@@ -6,11 +6,11 @@ CONSTANTS
   ClassHeads <- FileHeads
   NestedKeys <- None
   MemberAlpha <- FileMembers
-  MaxMembers <- M20
+  MaxMembers <- M10
   MaxClasses = 2
   BaseAlpha <- FileBases
-  TopAlpha <- FileTops
-  MaxTops = 1
+  TopAlpha <- None
+  MaxTops = 0
   CmdKinds <- FileCmds
 INVARIANT SafeVis
 INVARIANT SafeAccess
